@@ -412,6 +412,8 @@ var LyTemplates = []string{
 	"sub vcl_recv {\n  set req.http.a = \"1\"; // t1\n~  set req.http.bbbbbb = \"22\"; # t2\n~  esi; /* t3 */\n~  if (req.http.a) {\n    esi; // t4\n~    restart; // t5\n  }\n}\n",
 	// 13: declaration properties that all carry trailing comments
 	"backend b {\n  .host = \"h\"; // t1\n~  .connect_timeout = 1s; // t2\n~  .port = \"443\"; # t3\n}\ntable t {\n  \"a\": \"1\", // t4\n~  \"bbbb\": \"2\", // t5\n}\n",
+	// 14: a compound condition with the operators at the beginning of the continuation lines
+	"sub vcl_recv {\n  if (req.http.a^\n      && req.http.b^\n      || req.http.c) {\n    esi;\n  }\n}\n",
 }
 
 func lyRender(t string, max int) string {
